@@ -112,9 +112,41 @@ def thin_deck_below_ragged_deck(k, seed):
     return _df(rows), {'k': k, 'seed': seed, 'layout': f'thin_deck_below_ragged_deck({gap},{order})', 'ceilos': [f'ceilo{c}' for c in range(4)], 'rows': len(rows)}
 
 
+def deck_below_two_sheets(k, seed):
+    """one instrument: a plain low deck (its own group, handed to the mixture model first) and, well above it, a thick sheet with a thin
+    sheet just over it (one group, two components).  With a high BASE_LVL_HEIGHT_PERC the two sheets' bases are closer than the
+    separation: they must be re-merged -- for the second group exactly as for the first"""
+    rng = random.Random(seed * 91 + k)
+    nts = rng.choice([100, 120])
+    lowb, upb = rng.choice([1500., 2000.]), rng.choice([6000., 5000.])
+    rows = []
+    for t in range(nts):
+        dt = -1190. + 1190. * t / (nts - 1)
+        rows.append(('A', dt, lowb + rng.randint(-20, 20), 1))
+        rows.append(('A', dt, upb + rng.randint(0, 200), 2))
+        rows.append(('A', dt, upb + 300. + rng.randint(0, 20), 3))
+    order = rng.choice(['ascending', 'descending', 'shuffled'])
+    if order == 'descending':
+        rows.reverse()
+    elif order == 'shuffled':
+        rng.shuffle(rows)
+    return _df(rows), {'k': k, 'seed': seed, 'layout': f'deck_below_two_sheets({lowb},{upb},{nts},{order})', 'ceilos': ['A'], 'rows': len(rows)}
+
+
+def _raw_ncomp(chunk, grow):
+    """number of components the mixture model distinguishes in the group before any re-merging (min_sep = 0)"""
+    from ampycloud import layer
+    d = chunk.data
+    hts = d.loc[d['group_id'] == grow['cluster_id']].sort_values('dt', kind='stable')['height'].to_numpy()
+    n, _, _ = layer.ncomp_from_gmm(hts, ncomp_max=min(3, len(np.unique(hts))), min_sep=0, **chunk.prms['LAYERING_PRMS']['gmm_kwargs'])
+    return int(n)
+
+
 def check(k, seed):
     rng = random.Random(seed * 5 + k)
     kind = k % 6
+    if k % 12 == 11:
+        kind = 8
     if k % 12 == 7:
         kind = 6
     if k % 12 == 3:
@@ -123,6 +155,8 @@ def check(k, seed):
         df, desc = three_decks_across_a_bin(k, seed)
     elif kind == 7:
         df, desc = thin_deck_below_ragged_deck(k, seed)
+    elif kind == 8:
+        df, desc = deck_below_two_sheets(k, seed)
     elif kind == 4:
         df, desc = converging_sublayers(k, seed)
     elif kind == 5:
@@ -143,6 +177,10 @@ def check(k, seed):
     if kind == 7:
         prms = {'MIN_SEP_VALS': [250, 1000], 'MIN_SEP_LIMS': [10000], 'BASE_LVL_HEIGHT_PERC': rng.choice([0, 0, 5, 100]),
                 'BASE_LVL_LOOKBACK_PERC': rng.choice([100, 60])}
+        excl = False
+    if kind == 8:
+        prms = {'MIN_SEP_VALS': [250, 1000], 'MIN_SEP_LIMS': [10000], 'BASE_LVL_HEIGHT_PERC': rng.choice([95, 95, 90, 100]),
+                'BASE_LVL_LOOKBACK_PERC': rng.choice([100, 100, 70])}
         excl = False
     if kind in (4, 5):
         for key in ('MAX_HITS_OKTA0', 'MAX_HOLES_OKTA8', 'BASE_LVL_HEIGHT_PERC', 'MIN_SEP_VALS', 'MIN_SEP_LIMS'):
@@ -177,7 +215,8 @@ def check(k, seed):
             for a, b in zip(lb, lb[1:]):
                 # "no sub-layers re-merged" is observable only for 3 of 3 components, or for the designed two-sub-layer scenes
                 # (a 2-layer split there comes from the 2-component model: nothing re-merged)
-                if b - a < ms - 1e-9 and (int(grow['ncomp']) == 3 or kind in (4, 7) or _two_distinct(data, grow)):
+                if b - a < ms - 1e-9 and (int(grow['ncomp']) == 3 or kind in (4, 7) or _two_distinct(data, grow)
+                                          or (kind == 8 and _raw_ncomp(chunk, grow) == int(grow['ncomp']))):
                     fails.append(f'layers of group {grow["cluster_id"]} at {a:.1f} and {b:.1f} ft are {b-a:.1f} ft apart, minimum {ms}')
     return desc, prms, fails, None
 
